@@ -97,6 +97,11 @@ def build_case(case_seed, nbase, nprefix):
         m, feats = literal_array_module()
     else:
         m, feats = semgen.layout_module(rnd)
+    return build_case_model(m, feats, rnd, nbase, nprefix)
+
+
+def build_case_model(m, feats, rnd, nbase, nprefix, buffer_plan=None):
+    """buffer_plan(struct) -> list of (base bytes, [prefix lengths]) overrides the default buffers."""
     text = semgen.module_text(m)
     r = emb.compile_files({"m.emb": text})
     if not r.accepted:
@@ -111,7 +116,8 @@ def build_case(case_seed, nbase, nprefix):
         maxlen = struct_maxlen(s)
         for _ in range(2 if s.params else 1):
             pv = param_values(rnd, s)
-            for base, lens in gen_buffers(rnd, maxlen, nbase, nprefix):
+            plan = buffer_plan(s) if buffer_plan else gen_buffers(rnd, maxlen, nbase, nprefix)
+            for base, lens in plan:
                 group = (si, tuple(pv), base)
                 for n in lens:
                     b = base[:n]
@@ -146,6 +152,8 @@ def field_kind_of(module, struct_name, key):
         else:
             t = found.typ
             desc = (t.kind if t is not None else "anon-bits") + ("[]" if t is not None and t.dims else "")
+            if t is not None and t.kind == "enum" and t.target is not None and t.target.signed():
+                desc += "-signed"
             if found.cond is not None:
                 desc += "?"
             cur = found.inline if (found.inline is not None and not isinstance(found.inline, M.Enum)) else (t.target if t is not None and t.kind in ("struct", "bits") else None)
@@ -165,6 +173,14 @@ def compare(case, outputs, stats, quick):
         dyn = any(k.split(".")[-1].startswith("has_") and v != "T" for k, v, *_ in want) or any(f in case["features"] for f in ("dynamic-offset", "dynamic-array", "nested-dynamic-struct", "conditional"))
         readable = any(k.endswith(".Read") for k, v, *_ in want)
         stats.case([case["text"], e["struct"], e["params"], e["buf"]], dyn and readable, ["truncated" if e["len"] < len(e["group"][2]) else "full", "params" if e["params"] else "no-params"], sample={"struct": e["struct"], "params": e["params"], "buffer": e["buf"], "module_head": case["text"][:300], "observations": len(want)})
+        if case.get("per_observation"):
+            # C02/C03-style accounting: one evaluation per scalar observation
+            nz = any(ch not in "0-" for ch in e["buf"])
+            for item in want:
+                if item[0].endswith(".Ok"):
+                    stats.evaluations += 1
+                    if nz:
+                        stats.nontrivial.add(vlib.h([item[0], e["buf"], case["text"][:0], e["struct"], case.get("cid")]))
         wd = {}
         for item in want:
             wd[item[0]] = item
@@ -209,13 +225,13 @@ def compare(case, outputs, stats, quick):
                     known[k] = (n, v)
 
 
-def run_batch(ctx, seeds, nbase, nprefix, tag):
+def run_batch(ctx, seeds, nbase, nprefix, tag, builder=None):
     """Builds all modules for `seeds`, compiles drivers in parallel, runs and compares."""
     stats = vlib.Stats()
     root = os.path.join(ctx.tmp, tag)
     cases = []
     for i, sd in enumerate(seeds):
-        c = build_case(sd, nbase, nprefix)
+        c = builder(sd) if builder else build_case(sd, nbase, nprefix)
         if c["rejected"]:
             stats.discards += 1
             stats.classes["rejected:" + str(c["why"])[:60]] += 1
